@@ -149,6 +149,18 @@ CHECKS = {
    note='Trusted: Lean kernel, hand-written model Model/Kernels.lean, harness. pack/unpack (sqrt 2), scale2, sinv on s blocks, max_step and the '
         's-block part of scale are checked through identities / exact comparison only, not proved.',
    technique='Lean 4 proof (algebraic identities by induction over block length) + exact two-implementation correspondence'),
+ 'C07': dict(
+   category='proof',
+   text='Lean theorems (all dimensions): the componentwise scaling of compute_scaling satisfies d>0, d*di=1, d*z = s/d = lambda (over the reals '
+        'with Real.sqrt); the coded inverse of a q-block scaling is its inverse; block elimination of the documented 3x3 KKT system is sound; '
+        'the kernel of G'DG does not depend on the positive diagonal D (so the singular flag kkt_chol2 fixes at its first call is valid for '
+        'every later scaling on the same factory); solutions of a nonsingular system are unique (all five solvers must agree). The real '
+        'factories are checked against the documented block system (residual, mutual agreement, factor/solve histories on one factory), and '
+        'every W from compute_scaling and every W handed to a user kktsolver during conelp/coneqp solves is checked for the invariants.',
+   design_ref='DESIGN.md 5 C07',
+   note='Trusted: Lean kernel; LAPACK/CHOLMOD factorisations are contracts checked numerically (relative 1e-7/1e-9), not verified; the q- and '
+        's-block formulas of compute_scaling/update_scaling are validated numerically only; the mnl variants (cpl) are exercised through C04.',
+   technique='Lean 4 proof of the linear-algebra contract + numerical residual/invariant checking of the real factories'),
 }
 REASONS = {}
 def main():
